@@ -263,6 +263,32 @@ func init() {
 			Final: finalInvariants,
 		}
 	})
+	// the last departure of one session against the creation of another (id recycling)
+	registerBlock("c07-lastleave-vs-create", func() *Block {
+		return &Block{
+			Setup: func(x *Ctx) { x.conn("a", "c"); x.join("a", "") },
+			Fire: func(x *Ctx) {
+				x.C["a"].Close()
+				m, rid := joinReq(x.W, x.C["c"], "")
+				x.Vars["rid"] = rid
+				x.C["c"].SendMsg(m)
+			},
+			Check: func(x *Ctx) {
+				delete(x.J, "a")
+				ji := parseJoin(x.C["c"].Take(), x.Vars["rid"].(uint32))
+				var members []string
+				if ji.OK {
+					x.J["c"] = ji
+					members = append(members, "c")
+				} else {
+					x.fail("answer", "create-refused", "creating a session was refused: %v", ji.Code)
+				}
+				registryInvariants(x, members)
+				probeMembers(x, members)
+			},
+			Final: finalInvariants,
+		}
+	})
 	// join by id against a departure that is NOT the last one (control: must always succeed)
 	registerBlock("c07-join-vs-leave-nonlast", func() *Block {
 		return &Block{
@@ -308,6 +334,7 @@ func init() {
 			s2job("c07-lastleave-vs-lastleave", b2, budget),
 			s2job("c07-create-vs-create", b2, budget),
 			s2job("c07-join-vs-leave-nonlast", b2, budget),
+			s2job("c07-lastleave-vs-create", b2, budget),
 		}
 		ld := 6
 		if tier == "thorough" {
